@@ -123,6 +123,8 @@ void ev_raw(const char *k, const char *json);
 void ev_obs(const obs *o);
 void ev_end(void);
 extern FILE *ev_fp;
+extern __thread FILE *ev_fp_thread;
+extern int vc_parallel;
 extern long ev_count;
 
 /* ---------- command reader ---------- */
